@@ -126,7 +126,9 @@ impl IG {
             IG::MultiPolygon(v) => Geometry::MultiPolygon(MultiPolygon::new(v.iter().map(|x| poly(l, x)).collect())),
             IG::Rect(a, b) if l.shear != 0 => Geometry::Polygon(poly(l, &[IG::rect_ring(*a, *b)])),
             IG::Rect(a, b) => Geometry::Rect(Rect::new(l.c(*a), l.c(*b))),
-            IG::Triangle(a, b, c) => Geometry::Triangle(Triangle::new(l.c(*a), l.c(*b), l.c(*c))),
+            // the tuple constructor keeps the vertices as written (Triangle::new would re-order a clockwise triple): both
+            // windings reach the algorithms, as they do through Triangle::from([..]), the public fields and earcut output
+            IG::Triangle(a, b, c) => Geometry::Triangle(Triangle(l.c(*a), l.c(*b), l.c(*c))),
             IG::Collection(v) => Geometry::GeometryCollection(GeometryCollection::new_from(v.iter().map(|g| g.to_geo(l)).collect())),
         }
     }
@@ -208,8 +210,15 @@ impl IG {
     }
     /// flatten to the exact point-set model. Collections must be of a single dimension (checked by `valid`).
     pub fn to_model(&self) -> Model {
+        // a coordinate written twice in a row adds no point: the model is built from the sequence without such
+        // repetitions (unless nothing but one coordinate would be left)
         fn pp(v: &[IP]) -> Vec<P> {
-            v.iter().map(|&p| pi(p.0, p.1)).collect()
+            let mut w: Vec<IP> = v.to_vec();
+            w.dedup();
+            if w.len() < 2 {
+                w = v.to_vec();
+            }
+            w.iter().map(|&p| pi(p.0, p.1)).collect()
         }
         match self {
             IG::Point(p) => Model::Pts(vec![pi(p.0, p.1)]),
